@@ -293,4 +293,62 @@ theorem outcome_ok (e : S.Esc) (cfg : Cfg) (tbl : Table) (rq : Request) : outcom
                 · exact stages_ok _ _ _ _ _
 
 
+theorem precond_none_handler {cfg : Cfg} {rq : Request} {os : Opts} {sel : Sel} (h : S.precond cfg rq os sel = none) :
+    handlerBit sel.mask rq.msg.code = true := by
+  unfold S.precond at h
+  by_cases h1 : flag sel.flags F_OSCORE_ONLY = true
+  · simp [h1] at h
+  · by_cases h2 : sel.exists_ = true ∧ hasOpt os 5 = true
+    · simp [h1, h2] at h
+    · by_cases hb : handlerBit sel.mask rq.msg.code = true
+      · exact hb
+      · simp [h1, h2, hb] at h
+
+theorem finish_call (e : S.Esc) (cfg : Cfg) (rq : Request) (os : Opts) (path : Bytes) (sel : Sel) (obs : Bool) (resp1 : Reply) :
+    (S.finish e cfg rq os path sel obs resp1).call =
+      sel.who.map fun who => ⟨who, rq.msg.code, path, S.uriQuery e os, os, rq.msg.payload⟩ := by
+  unfold S.finish
+  simp only
+  generalize (if rq.verdict.code = 0 then resp1.code else rq.verdict.code) = code
+  cases sel.who with
+  | none => rfl
+  | some who =>
+    simp only [Option.map]
+    by_cases hv : S.validCode code = true
+    · simp only [hv, not_true_eq_false, if_false]
+      split <;> rfl
+    · simp [hv]
+
+def keep (o : Nat × Bytes) : Bool := o.1 != 16 && o.1 != 23
+
+theorem setHop_keep (k : Nat) (os : Opts) : (setHop k os).filter keep = os.filter keep := by
+  induction os with
+  | nil => rfl
+  | cons o r ih =>
+    obtain ⟨n, v⟩ := o
+    unfold setHop
+    by_cases hn : n = 16
+    · subst hn; simp [keep]
+    · simp only [hn, if_false, List.filter_cons, ih]
+
+theorem clear_keep (os : Opts) : (clearBlock2M os).filter keep = os.filter keep := by
+  induction os with
+  | nil => rfl
+  | cons o r ih =>
+    obtain ⟨n, v⟩ := o
+    unfold clearBlock2M
+    by_cases hn : n = 23
+    · subst hn; simp only [if_true]; split <;> simp [keep]
+    · simp only [hn, if_false, List.filter_cons, ih]
+
+def viewOk (base : Opts) : Pre → Prop
+  | .go _ os _ => os.filter keep = base.filter keep
+  | _ => True
+
+theorem pre_view (e : S.Esc) (tbl : Table) (rq : Request) (c : Bool) (os : Opts) : viewOk os (S.pre e tbl rq c os) := by
+  unfold S.pre S.hopLimit S.pathOf
+  simp only
+  repeat' split
+  all_goals simp [viewOk, setHop_keep]
+
 end Coap.Server.L
